@@ -57,6 +57,8 @@ type c19Expiry struct {
 	// "" after power-on (default), "before" the power-off (the counter must survive the power cycle),
 	// "off" while powered off (length registers stay writable then).
 	Load string `json:"load,omitempty"`
+	// Junk: the NRx4 writes also have the unused bits 3-5 set (only bit 7 triggers and only bit 6 enables length)
+	Junk bool `json:"junk_bits,omitempty"`
 }
 
 func c19ExpiryCheck(l *explore.Local, _ struct{}, c c19Expiry) *explore.Fail {
@@ -111,18 +113,22 @@ func c19ExpiryCheck(l *explore.Local, _ struct{}, c c19Expiry) *explore.Fail {
 	if c.Skew >= 0 && c.First != (p.mod.Step%2 == 1) {
 		return explore.Failf("harness: could not reach the requested frame-sequencer half", "%s: model step %d", ctx, p.mod.Step)
 	}
+	junk := uint8(0)
+	if c.Junk {
+		junk = 0x38
+	}
 	if c.After {
-		if f := w(r.ctl, 0x80|r.freqHi); f != nil {
+		if f := w(r.ctl, 0x80|junk|r.freqHi); f != nil {
 			return f
 		}
 		if f := p.tick(1, ctx); f != nil {
 			return f
 		}
-		if f := w(r.ctl, 0x40|r.freqHi); f != nil {
+		if f := w(r.ctl, 0x40|junk|r.freqHi); f != nil {
 			return f
 		}
 	} else {
-		if f := w(r.ctl, 0xc0|r.freqHi); f != nil {
+		if f := w(r.ctl, 0xc0|junk|r.freqHi); f != nil {
 			return f
 		}
 	}
@@ -406,6 +412,11 @@ func init() {
 								for _, skew := range []int{0, 1, 700, -1, -2} {
 									if !yield(c19Expiry{Ch: ch, T: t, First: first, After: after, Skew: skew}) {
 										return
+									}
+									if skew == 700 {
+										if !yield(c19Expiry{Ch: ch, T: t, First: first, After: after, Skew: skew, Junk: true}) {
+											return
+										}
 									}
 									if skew == 0 {
 										for _, load := range []string{"before", "off"} {
